@@ -420,7 +420,12 @@ func (w *c15World) apply(fl []string, unlimited bool) (class string, err error) 
 		if !ok {
 			return "err", fmt.Errorf("no rollapp")
 		}
-		_, err := f.Deliver(&rollapptypes.MsgTransferOwnership{CurrentOwner: ra.Owner, NewOwner: c15Addr(int(n(2))).String(), RollappId: ra.RollappId})
+		newOwner := c15Addr(int(n(2))).String()
+		if len(fl) > 3 && fl[3] == "uc" {
+			// the all-uppercase bech32 spelling of the same address (valid bech32, accepted by ValidateBasic)
+			newOwner = strings.ToUpper(newOwner)
+		}
+		_, err := f.Deliver(&rollapptypes.MsgTransferOwnership{CurrentOwner: ra.Owner, NewOwner: newOwner, RollappId: ra.RollappId})
 		return c15Class(err), err
 	case "rollapp":
 		f.App.RollappKeeper.SetRollapp(f.Ctx, rollapptypes.Rollapp{RollappId: c15RollappID(int(n(1))), Owner: c15Addr(int(n(2))).String(), Launched: fl[3] == "1"})
@@ -1616,6 +1621,10 @@ func (x *c15Gen) txOp() bool {
 			if perturb && g.Chance(15) {
 				// deliberately: hand the rollapp to a blocked module account through the real message
 				x.t.r.Hit("perturb/xferowner-blocked")
+				if g.Chance(40) {
+					x.t.r.Hit("perturb/xferowner-blocked-uppercase-spelling")
+					return x.do(fmt.Sprintf("xferowner %d 102 uc", rr))
+				}
 				return x.do(fmt.Sprintf("xferowner %d 102", rr))
 			}
 			if g.Chance(25) {
@@ -1859,6 +1868,16 @@ var c15Witnesses = map[string][]string{
 		"fund 100 9000,0",
 		"mkstream 9000,0 1:1 NOW 1 3",
 		"xferowner 0 102",
+		"begin 3601", "end", "begin 3601", "end", "begin 3601", "end",
+	},
+	// the same with the blocked address spelled in upper case (a blocked-address test keyed by the
+	// canonical lower-case text would miss it)
+	"f4-blocked-rollapp-owner-uppercase": {
+		"begin 1", "end",
+		"rollapp 0 2 1", "rgauge 0",
+		"fund 100 9000,0",
+		"mkstream 9000,0 1:1 NOW 1 3",
+		"xferowner 0 102 uc",
 		"begin 3601", "end", "begin 3601", "end", "begin 3601", "end",
 	},
 	// governance re-targets a half-served stream in the middle of the epoch (limit 1): gauge 2 gets the whole
